@@ -780,6 +780,204 @@ static void script_vnacal_trl(Script &S) {
     VC_FREE(0);
 }
 
+// --- S12: UE14 2x2 with one unknown parameter that is not a TRL set: iterative (auto) solve
+static void script_vnacal_auto_ue14(Script &S) {
+    S.name = "vnacal_auto_ue14_unknown";
+    static Vna2 vna; vna.with_leak = true;
+    static const cd L_ACTUAL(0.52, -0.47);
+    static MeasP m_so = measure_m(vna, 3, S_const(-1, 0, 0, 1), 2, 2);
+    static MeasP m_os = measure_m(vna, 3, S_const(1, 0, 0, -1), 2, 2);
+    static MeasP m_mm = measure_m(vna, 3, S_const(0, 0, 0, 0), 2, 2);
+    static MeasP m_thru = measure_m(vna, 3, S_const(0, 1, 1, 0), 2, 2);
+    static MeasP m_line = measure_m(vna, 3, S_const(0.1, L_ACTUAL, L_ACTUAL, 0.1), 2, 2);
+    struct AB { MeasP a, b; };
+    static AB ab_line; if (!ab_line.a) make_ab(*m_line, true, ab_line.a, ab_line.b);
+    static AB ab_dut; if (!ab_dut.a) { MeasP m = measure_m(vna, 3, S_dut(), 2, 2); make_ab(*m, true, ab_dut.a, ab_dut.b); }
+    VC_CREATE(0);
+    VN_ALLOC(0, VNACAL_UE14, 2, 2, 3);
+    VN_SETF(0, FREQ3);
+    S.add("vnacal_new_add_double_reflect_m", true, [](World &w) { RET_INT0(w, vnacal_new_add_double_reflect_m(w.vn[0], m_so->ptr(), 2, 2, VNACAL_SHORT, VNACAL_OPEN, 1, 2)); });
+    S.add("vnacal_new_add_double_reflect_m", true, [](World &w) { RET_INT0(w, vnacal_new_add_double_reflect_m(w.vn[0], m_os->ptr(), 2, 2, VNACAL_OPEN, VNACAL_SHORT, 1, 2)); });
+    S.add("vnacal_new_add_double_reflect_m", true, [](World &w) { RET_INT0(w, vnacal_new_add_double_reflect_m(w.vn[0], m_mm->ptr(), 2, 2, VNACAL_MATCH, VNACAL_MATCH, 1, 2)); });
+    S.add("vnacal_new_add_through_m", true, [](World &w) { RET_INT0(w, vnacal_new_add_through_m(w.vn[0], m_thru->ptr(), 2, 2, 1, 2)); });
+    PAR_SCALAR(0, 0.1, 0.0);
+    PAR_SCALAR(1, 0.5, -0.5);        // initial guess of the line's transmission
+    S.add("vnacal_make_unknown_parameter", true, [](World &w) { RET_INTN(w, vnacal_make_unknown_parameter(w.vc[0], w.par[1]), w.par[2]); });
+    // a,b form of a column-system type: a is 1 x columns
+    S.add("vnacal_new_add_line", true, [](World &w) { int s[4] = {w.par[0], w.par[2], w.par[2], w.par[0]}; RET_INT0(w, vnacal_new_add_line(w.vn[0], ab_line.a->ptr(), 1, 2, ab_line.b->ptr(), 2, 2, s, 1, 2)); });
+    S.add("vnacal_new_set_p_tolerance", true, [](World &w) { RET_INT0(w, vnacal_new_set_p_tolerance(w.vn[0], 1e-7)); });
+    S.add("vnacal_new_set_et_tolerance", true, [](World &w) { RET_INT0(w, vnacal_new_set_et_tolerance(w.vn[0], 1e-7)); });
+    S.add("vnacal_new_set_iteration_limit", true, [](World &w) { RET_INT0(w, vnacal_new_set_iteration_limit(w.vn[0], 50)); });
+    S.add("vnacal_new_solve", true, [](World &w) { RET_INT0(w, vnacal_new_solve(w.vn[0])); }, [](World &w) { obs_par(w, 2, 2e9); });
+    VC_ADDCAL(0, 0, "ue14");
+    VC_SAVE(0);
+    S.add("vnadata_alloc", true, [](World &w) { RET_PTR(w, vnadata_alloc(errlog_fn, &w.log), w.vd[0]); });
+    S.add("vnacal_apply", true, [](World &w) { RET_INT0(w, vnacal_apply(w.vc[0], w.ci[0], FREQ3.data(), 3, ab_dut.a->ptr(), 1, 2, ab_dut.b->ptr(), 2, 2, w.vd[0])); }, OBS_VD(0));
+    FREE_VD(0);
+    VN_FREE(0);
+    VC_FREE(0);
+}
+
+// --- S13: weighted solve: T8 2x2, measurement-error model on its own frequency grid (splines),
+//     over-determined standard set, p-value test
+static void script_vnacal_weighted(Script &S) {
+    S.name = "vnacal_weighted_t8_m_error";
+    static Vna2 vna;
+    static MeasP m_thru = measure_m(vna, 3, S_const(0, 1, 1, 0), 2, 2);
+    static MeasP m_so = measure_m(vna, 3, S_const(-1, 0, 0, 1), 2, 2);
+    static MeasP m_os = measure_m(vna, 3, S_const(1, 0, 0, -1), 2, 2);
+    static MeasP m_mm = measure_m(vna, 3, S_const(0, 0, 0, 0), 2, 2);
+    static MeasP m_ss = measure_m(vna, 3, S_const(-1, 0, 0, -1), 2, 2);
+    static MeasP m_dut = measure_m(vna, 3, S_dut(), 2, 2);
+    static const dvec egrid = {0.9e9, 1.7e9, 2.4e9, 3.1e9};
+    static const dvec snf = {1e-4, 2e-4, 1.5e-4, 1e-4};
+    static const dvec str_ = {1e-3, 1e-3, 2e-3, 1e-3};
+    VC_CREATE(0);
+    VN_ALLOC(0, VNACAL_T8, 2, 2, 3);
+    VN_SETF(0, FREQ3);
+    S.add("vnacal_new_set_m_error", true, [](World &w) { RET_INT0(w, vnacal_new_set_m_error(w.vn[0], egrid.data(), 4, snf.data(), str_.data())); });
+    S.add("vnacal_new_set_pvalue_limit", true, [](World &w) { RET_INT0(w, vnacal_new_set_pvalue_limit(w.vn[0], 1e-6)); });
+    S.add("vnacal_new_add_through_m", true, [](World &w) { RET_INT0(w, vnacal_new_add_through_m(w.vn[0], m_thru->ptr(), 2, 2, 1, 2)); });
+    S.add("vnacal_new_add_double_reflect_m", true, [](World &w) { RET_INT0(w, vnacal_new_add_double_reflect_m(w.vn[0], m_so->ptr(), 2, 2, VNACAL_SHORT, VNACAL_OPEN, 1, 2)); });
+    S.add("vnacal_new_add_double_reflect_m", true, [](World &w) { RET_INT0(w, vnacal_new_add_double_reflect_m(w.vn[0], m_os->ptr(), 2, 2, VNACAL_OPEN, VNACAL_SHORT, 1, 2)); });
+    S.add("vnacal_new_add_double_reflect_m", true, [](World &w) { RET_INT0(w, vnacal_new_add_double_reflect_m(w.vn[0], m_mm->ptr(), 2, 2, VNACAL_MATCH, VNACAL_MATCH, 1, 2)); });
+    S.add("vnacal_new_add_mapped_matrix_m", true, [](World &w) { int s[4] = {VNACAL_SHORT, VNACAL_ZERO, VNACAL_ZERO, VNACAL_SHORT}; RET_INT0(w, vnacal_new_add_mapped_matrix_m(w.vn[0], m_ss->ptr(), 2, 2, s, 2, 2, nullptr)); });
+    VN_SOLVE(0);
+    VC_ADDCAL(0, 0, "weighted");
+    // same sigma for all frequencies (no grid), then on the calibration grid, then disabled
+    S.add("vnacal_new_set_m_error", true, [](World &w) { RET_INT0(w, vnacal_new_set_m_error(w.vn[0], nullptr, 1, snf.data(), nullptr)); });
+    VN_SOLVE(0);
+    S.add("vnacal_new_set_m_error", true, [](World &w) { RET_INT0(w, vnacal_new_set_m_error(w.vn[0], nullptr, 3, snf.data(), str_.data())); });
+    VN_SOLVE(0);
+    VC_ADDCAL(0, 1, "weighted");
+    S.add("vnacal_new_set_m_error", true, [](World &w) { RET_INT0(w, vnacal_new_set_m_error(w.vn[0], nullptr, 1, nullptr, nullptr)); });
+    VC_SAVE(0);
+    S.add("vnadata_alloc", true, [](World &w) { RET_PTR(w, vnadata_alloc(errlog_fn, &w.log), w.vd[0]); });
+    S.add("vnacal_apply_m", true, [](World &w) { RET_INT0(w, vnacal_apply_m(w.vc[0], w.ci[1], FREQ_APPLY.data(), 3, m_dut->ptr(), 2, 2, w.vd[0])); }, OBS_VD(0));
+    FREE_VD(0);
+    VN_FREE(0);
+    VC_FREE(0);
+}
+
+// --- S14: correlated parameters (connection non-repeatability) with a measurement-error model: auto solve
+static void script_vnacal_correlated(Script &S) {
+    S.name = "vnacal_correlated_te10";
+    static Vna2 vna; vna.with_leak = true;
+    static const cd R1(-0.91, 0.02), R2(-0.89, -0.01);
+    static MeasP m_thru = measure_m(vna, 3, S_const(0, 1, 1, 0), 2, 2);
+    static MeasP m_so = measure_m(vna, 3, S_const(-1, 0, 0, 1), 2, 2);
+    static MeasP m_os = measure_m(vna, 3, S_const(1, 0, 0, -1), 2, 2);
+    static MeasP m_mm = measure_m(vna, 3, S_const(0, 0, 0, 0), 2, 2);
+    static MeasP m_rr = measure_m(vna, 3, S_const(R1, 0, 0, R2), 2, 2);
+    static const dvec sgrid = {0.8e9, 2e9, 3.3e9};
+    static const dvec sig3 = {0.05, 0.04, 0.05};
+    static const dvec sig1 = {0.05};
+    static const dvec snf = {1e-3};
+    VC_CREATE(0);
+    VN_ALLOC(0, VNACAL_TE10, 2, 2, 3);
+    VN_SETF(0, FREQ3);
+    S.add("vnacal_new_set_m_error", true, [](World &w) { RET_INT0(w, vnacal_new_set_m_error(w.vn[0], nullptr, 1, snf.data(), nullptr)); });
+    S.add("vnacal_new_add_through_m", true, [](World &w) { RET_INT0(w, vnacal_new_add_through_m(w.vn[0], m_thru->ptr(), 2, 2, 1, 2)); });
+    S.add("vnacal_new_add_double_reflect_m", true, [](World &w) { RET_INT0(w, vnacal_new_add_double_reflect_m(w.vn[0], m_so->ptr(), 2, 2, VNACAL_SHORT, VNACAL_OPEN, 1, 2)); });
+    S.add("vnacal_new_add_double_reflect_m", true, [](World &w) { RET_INT0(w, vnacal_new_add_double_reflect_m(w.vn[0], m_os->ptr(), 2, 2, VNACAL_OPEN, VNACAL_SHORT, 1, 2)); });
+    S.add("vnacal_new_add_double_reflect_m", true, [](World &w) { RET_INT0(w, vnacal_new_add_double_reflect_m(w.vn[0], m_mm->ptr(), 2, 2, VNACAL_MATCH, VNACAL_MATCH, 1, 2)); });
+    PAR_SCALAR(0, -0.9, 0.0);
+    S.add("vnacal_make_correlated_parameter", true, [](World &w) { RET_INTN(w, vnacal_make_correlated_parameter(w.vc[0], w.par[0], sgrid.data(), 3, sig3.data()), w.par[1]); });
+    S.add("vnacal_make_correlated_parameter", true, [](World &w) { RET_INTN(w, vnacal_make_correlated_parameter(w.vc[0], w.par[1], nullptr, 1, sig1.data()), w.par[2]); });
+    S.add("vnacal_new_add_double_reflect_m", true, [](World &w) { RET_INT0(w, vnacal_new_add_double_reflect_m(w.vn[0], m_rr->ptr(), 2, 2, w.par[1], w.par[2], 1, 2)); });
+    S.add("vnacal_new_set_pvalue_limit", true, [](World &w) { RET_INT0(w, vnacal_new_set_pvalue_limit(w.vn[0], 1e-9)); });
+    S.add("vnacal_new_solve", true, [](World &w) { RET_INT0(w, vnacal_new_solve(w.vn[0])); }, [](World &w) { obs_par(w, 1, 2e9); obs_par(w, 2, 2e9); });
+    VC_ADDCAL(0, 0, "correlated");
+    VC_SAVE(0);
+    VN_FREE(0);
+    VC_FREE(0);
+}
+
+// --- S15: several calibrations in one container: three add_calibration calls (growth of the
+//     calibration table 0 -> 1 -> 8), replacement by name, delete, find, save, load, apply with interpolation
+static void script_vnacal_multi(Script &S) {
+    S.name = "vnacal_multi_calibration";
+    static Vna2 vna;
+    auto refl = [](cd g) { MeasP mp = std::make_shared<Meas>(1, 1, 4); for (int f = 0; f < 4; f++) { cd s[2][2] = {{g, 0}, {0, 0}}, m[2][2]; vna.measure(s, f, m); mp->at(0, 0, f) = cx(m[0][0]); } return mp; };
+    static MeasP m_s = refl(-1), m_o = refl(1), m_m = refl(0), m_d = refl(cd(0.3, -0.4));
+    static const dvec fa = {1.1e9, 1.9e9, 2.6e9, 3.7e9};
+    VC_CREATE(0);
+    for (int i = 0; i < 3; i++) {
+        int type = i == 0 ? VNACAL_T8 : i == 1 ? VNACAL_UE10 : VNACAL_E12;
+        S.add("vnacal_new_alloc", true, [i, type](World &w) { RET_PTR(w, vnacal_new_alloc(w.vc[0], (vnacal_type_t)type, 1, 1, 4), w.vn[i]); });
+        S.add("vnacal_new_set_frequency_vector", true, [i](World &w) { RET_INT0(w, vnacal_new_set_frequency_vector(w.vn[i], FREQ4.data())); });
+        S.add("vnacal_new_add_single_reflect_m", true, [i](World &w) { RET_INT0(w, vnacal_new_add_single_reflect_m(w.vn[i], m_s->ptr(), 1, 1, VNACAL_SHORT, 1)); });
+        S.add("vnacal_new_add_single_reflect_m", true, [i](World &w) { RET_INT0(w, vnacal_new_add_single_reflect_m(w.vn[i], m_o->ptr(), 1, 1, VNACAL_OPEN, 1)); });
+        S.add("vnacal_new_add_single_reflect_m", true, [i](World &w) { RET_INT0(w, vnacal_new_add_single_reflect_m(w.vn[i], m_m->ptr(), 1, 1, VNACAL_MATCH, 1)); });
+        S.add("vnacal_new_solve", true, [i](World &w) { RET_INT0(w, vnacal_new_solve(w.vn[i])); });
+        S.add("vnacal_add_calibration", true, [i](World &w) { static const char *names[3] = {"first", "second", "third"}; RET_INTN(w, vnacal_add_calibration(w.vc[0], names[i], w.vn[i]), w.ci[i]); }, OBS_VC(0));
+    }
+    S.add("vnacal_property_set", false, [](World &w) { RET_INT0(w, vnacal_property_set(w.vc[0], w.ci[1], "note=second calibration")); });
+    S.add("vnacal_property_set", false, [](World &w) { RET_INT0(w, vnacal_property_set(w.vc[0], w.ci[2], "list[+]=%d", 3)); });
+    S.add("vnacal_find_calibration", false, [](World &w) { int ci; RET_INTN(w, vnacal_find_calibration(w.vc[0], "second"), ci); (void)ci; }, [](World &w) { w.obs("found=%ld", w.rc); });
+    S.add("vnacal_delete_calibration", false, [](World &w) { RET_INT0(w, vnacal_delete_calibration(w.vc[0], w.ci[0])); }, OBS_VC(0));
+    // solve again and replace "second" by name; then refill the deleted slot
+    VN_SOLVE(0);
+    S.add("vnacal_add_calibration", true, [](World &w) { RET_INTN(w, vnacal_add_calibration(w.vc[0], "second", w.vn[0]), w.ci[3]); }, OBS_VC(0));
+    VN_SOLVE(1);
+    S.add("vnacal_add_calibration", true, [](World &w) { RET_INTN(w, vnacal_add_calibration(w.vc[0], "fourth", w.vn[1]), w.ci[4]); }, OBS_VC(0));
+    S.add("vnacal_set_dprecision", true, [](World &w) { RET_INT0(w, vnacal_set_dprecision(w.vc[0], VNACAL_MAX_PRECISION)); });
+    VC_SAVE(0);
+    VN_FREE(2);
+    VC_FREE(0);
+    VC_LOAD(1);
+    S.add("vnadata_alloc", true, [](World &w) { RET_PTR(w, vnadata_alloc(errlog_fn, &w.log), w.vd[0]); });
+    for (int ci = 0; ci < 3; ci++)
+        S.add("vnacal_apply_m", true, [ci](World &w) { RET_INT0(w, vnacal_apply_m(w.vc[1], ci, fa.data(), 4, m_d->ptr(), 1, 1, w.vd[0])); }, OBS_VD(0));
+    S.add("vnacal_save", true, [](World &w) { RET_INT0(w, vnacal_save(w.vc[1], w.tmp[3].c_str())); }, [](World &w) { w.digest += slurp_file(w.tmp[3]); });
+    FREE_VD(0);
+    VC_FREE(1);
+}
+
+// --- S16: 16-term types: T16 and U16 2x2 from fully specified standards (mapped matrices), with error model
+static void script_vnacal_t16(Script &S) {
+    S.name = "vnacal_t16_u16";
+    static Vna2 vna; vna.with_leak = true;
+    struct Std { int s[4]; MeasP m; };
+    auto g = [](int h) { return h == VNACAL_SHORT ? cd(-1) : h == VNACAL_OPEN ? cd(1) : cd(0); };
+    static std::vector<Std> stds;
+    if (stds.empty()) {
+        const int defs[6][4] = {
+            {VNACAL_ZERO, VNACAL_ONE, VNACAL_ONE, VNACAL_ZERO},          // through
+            {VNACAL_SHORT, VNACAL_ZERO, VNACAL_ZERO, VNACAL_OPEN},
+            {VNACAL_OPEN, VNACAL_ZERO, VNACAL_ZERO, VNACAL_SHORT},
+            {VNACAL_MATCH, VNACAL_ZERO, VNACAL_ZERO, VNACAL_MATCH},
+            {VNACAL_SHORT, VNACAL_ZERO, VNACAL_ZERO, VNACAL_MATCH},
+            {VNACAL_MATCH, VNACAL_ZERO, VNACAL_ZERO, VNACAL_OPEN}};
+        for (auto &d : defs) {
+            Std st; for (int i = 0; i < 4; i++) st.s[i] = d[i];
+            // off-diagonal VNACAL_ONE (= VNACAL_OPEN = 1) means transmission 1
+            st.m = measure_m(vna, 2, S_const(g(d[0]), d[1] == VNACAL_ONE ? cd(1) : cd(0), d[2] == VNACAL_ONE ? cd(1) : cd(0), g(d[3])), 2, 2);
+            stds.push_back(st);
+        }
+    }
+    static const dvec f2 = {1e9, 2e9};
+    static const dvec snf = {1e-3};
+    static MeasP m_dut = measure_m(vna, 2, S_dut(), 2, 2);
+    VC_CREATE(0);
+    for (int t = 0; t < 2; t++) {
+        int type = t == 0 ? VNACAL_T16 : VNACAL_U16;
+        S.add("vnacal_new_alloc", true, [t, type](World &w) { RET_PTR(w, vnacal_new_alloc(w.vc[0], (vnacal_type_t)type, 2, 2, 2), w.vn[t]); });
+        S.add("vnacal_new_set_frequency_vector", true, [t](World &w) { RET_INT0(w, vnacal_new_set_frequency_vector(w.vn[t], f2.data())); });
+        if (t == 1)
+            S.add("vnacal_new_set_m_error", true, [t](World &w) { RET_INT0(w, vnacal_new_set_m_error(w.vn[t], nullptr, 1, snf.data(), nullptr)); });
+        for (size_t k = 0; k < 6; k++)
+            S.add("vnacal_new_add_mapped_matrix_m", true, [t, k](World &w) { RET_INT0(w, vnacal_new_add_mapped_matrix_m(w.vn[t], stds[k].m->ptr(), 2, 2, stds[k].s, 2, 2, nullptr)); });
+        S.add("vnacal_new_solve", true, [t](World &w) { RET_INT0(w, vnacal_new_solve(w.vn[t])); });
+        S.add("vnacal_add_calibration", true, [t](World &w) { RET_INTN(w, vnacal_add_calibration(w.vc[0], t == 0 ? "t16" : "u16", w.vn[t]), w.ci[t]); }, OBS_VC(0));
+    }
+    VC_SAVE(0);
+    S.add("vnadata_alloc", true, [](World &w) { RET_PTR(w, vnadata_alloc(errlog_fn, &w.log), w.vd[0]); });
+    S.add("vnacal_apply_m", true, [](World &w) { RET_INT0(w, vnacal_apply_m(w.vc[0], w.ci[1], f2.data(), 2, m_dut->ptr(), 2, 2, w.vd[0])); }, OBS_VD(0));
+    FREE_VD(0);
+    VC_FREE(0);    // also frees both vnacal_new_t structures
+}
+
 //@@MORE_SCRIPTS@@
 
 static void build_scripts() {
@@ -790,6 +988,7 @@ static void build_scripts() {
         script_vnaproperty_basic, script_vnaproperty_yaml,
         script_vnacal_parameters,
         script_vnacal_solt_e12, script_vnacal_t8_ab, script_vnacal_trl,
+        script_vnacal_auto_ue14, script_vnacal_weighted, script_vnacal_correlated, script_vnacal_multi, script_vnacal_t16,
         //@@MORE_BUILDERS@@
     };
     for (builder b : all) { g_scripts.emplace_back(); b(g_scripts.back()); }
